@@ -39,10 +39,31 @@ def interleaved_port_cases():
     return cases
 
 
+def switched_off_cases():
+    """A repetition over a child with a resource of type `other` (or `qubits` under a non-constant sequence), the switch
+    BARTIQ_REPETITION_ALLOW_ARBITRARY_RESOURCES unset or spelled off (False, 0): the source is refused."""
+    import exprs as E
+
+    def node(name, params=(), links=(), kids=(), res=(), rep=None):
+        return {"name": name, "type": None, "input_params": list(params), "local_variables": [], "linked_params": [list(l) for l in links],
+                "ports": [], "resources": list(res), "connections": [], "repetition": rep, "children": list(kids)}
+    out = []
+    for env in (None, "False", "0"):
+        for rtype, seq in (("other", {"kind": "constant", "multiplier": E.num(1)}),
+                           ("qubits", {"kind": "arithmetic", "initial_term": E.num(1), "difference": E.num(1)})):
+            body = node("body", params=["N"], res=[{"name": "T", "type": "additive", "value": E.sym("N")}, {"name": "layout", "type": rtype, "value": E.num(3)}])
+            loop = node("loop", params=["N"], links=[["N", [["body", "N"]]]], kids=[body], rep={"count": E.num(4), "sequence": seq})
+            c = {"routine": node("root", params=["N"], links=[["N", [["loop", "N"]]]], kids=[loop]), "expect_refusal": True}
+            if env is not None:
+                c["env"] = {"BARTIQ_REPETITION_ALLOW_ARBITRARY_RESOURCES": env}
+            out.append(c)
+    return out
+
+
 def streams(tier, seed):
     rng = lib.Rng(f"C10-{seed}")
     n = 160 if tier == "quick" else 3000
-    cases = lib.load_corpus(PROP, "hier-compile") + interleaved_port_cases() + c01.gen_cases(rng, n, 3 if tier == "quick" else 4)
+    cases = lib.load_corpus(PROP, "hier-compile") + interleaved_port_cases() + switched_off_cases() + c01.gen_cases(rng, n, 3 if tier == "quick" else 4)
     # a third of the cases are compiled with derived resources named like resources of the hierarchy whose calculator
     # answers None ("not applicable") everywhere: the compiled hierarchy must be what it is without them
     import hier as H
